@@ -18,6 +18,7 @@ import (
 	"bytes"
 	"fmt"
 	"math/big"
+	"sort"
 	"strings"
 
 	"github.com/youchainhq/go-youchain/common"
@@ -212,6 +213,7 @@ type blockRec struct {
 	lines     []string
 	block     *types.Block
 	nTx       int
+	nContract int // contract calls offered
 	nStaking  int
 	nFailed   int // included with failed status
 	nSkipped  int // refused by the builder
@@ -220,10 +222,15 @@ type blockRec struct {
 	forged    bool
 	periodEnd bool
 	endLogs   int
-	slashLogs int // logs with the slashing topic in the end-block receipt
+	slashLogs int                         // logs with the slashing topic in the end-block receipt
 	slashTot  map[common.Address]*big.Int // penalty total per validator as logged (SlashDataV5.Total)
 	reruns    int
 	skipped   string // block not built (ill-formed proposer)
+
+	worker      bool           // built through the worker's candidate loop
+	workerStats map[string]int // per error class
+	candGas     uint64         // sum of the candidates' gas limits
+	gasLimit    uint64
 
 	poolBefore, poolAfter []staking.Evidence // the builder's evidence pool when EndBlock started / after it
 	sameKind              bool               // an evidence of kind "same" is in the pool (F-C05a territory, excluded from the model comparison)
@@ -245,10 +252,11 @@ type violation struct {
 }
 
 type runResult struct {
-	w       *world
-	blocks  []blockRec
-	viol    *violation
-	stopErr string // scenario cannot continue for a reason that is not a violation (deterministic panic of the builder)
+	childBlocks int // blocks re-executed in a fresh child process
+	w           *world
+	blocks      []blockRec
+	viol        *violation
+	stopErr     string // scenario cannot continue for a reason that is not a violation (deterministic panic of the builder)
 }
 
 func splitBlocks(lines []string) [][]string {
@@ -297,7 +305,48 @@ func execScenario(lines []string, k int) (*runResult, error) {
 			break
 		}
 	}
+	if err := s.finishChain(); err != nil {
+		return nil, err
+	}
 	return s.rr, nil
+}
+
+// finishChain: the blocks whose result could depend on process history (contract calls, evidences, worker blocks, period
+// ends; at most maxChild, latest first) are re-executed once more in a fresh child process on a dump of node B's database.
+const maxChild = 8
+
+func (s *session) finishChain() error {
+	rr := s.rr
+	if rr.viol != nil || s.k == 0 {
+		return nil
+	}
+	var nums []uint64
+	at := map[uint64]int{}
+	for i := len(rr.blocks) - 1; i >= 0 && len(nums) < maxChild; i-- {
+		b := rr.blocks[i]
+		if b.block == nil {
+			continue
+		}
+		if b.nContract > 0 || b.nEv > 0 || b.worker || b.periodEnd || len(nums) == 0 {
+			nums = append(nums, b.num)
+			at[b.num] = i
+		}
+	}
+	what, err := childReexec(s.w.kit.B, nums)
+	if err != nil {
+		return err
+	}
+	rr.childBlocks = len(nums)
+	if what != "" {
+		idx := len(rr.blocks) - 1
+		var n uint64
+		fmt.Sscanf(strings.TrimPrefix(what, "re-execution of accepted block "), "%d", &n)
+		if i, ok := at[n]; ok {
+			idx = i
+		}
+		rr.viol = &violation{kind: "nondeterminism", at: idx, what: what}
+	}
+	return nil
 }
 
 // runBlock builds, imports, re-executes and records one block. bl[0] is the B line. A returned error means the scenario
@@ -333,7 +382,7 @@ func (s *session) runBlock(bl []string) error {
 		rr.blocks = append(rr.blocks, br)
 		return nil
 	}
-	work, err := w.kit.Begin(coinbase)
+	work, err := beginWork(w.kit.A, w.kit.Signer, coinbase)
 	if err != nil {
 		return err
 	}
@@ -341,6 +390,32 @@ func (s *session) runBlock(bl []string) error {
 	parentNum := br.num - 1
 	var evs []staking.Evidence
 	forged := false
+	workerMode := false
+	for _, l := range bl[1:] {
+		if strings.TrimSpace(l) == "WK" {
+			workerMode = true
+		}
+	}
+	// worker mode: candidates grouped by sender, nonces assigned from the state at the start of the block
+	groups := map[common.Address]types.Transactions{}
+	given := map[common.Address]uint64{}
+	kindOf := map[common.Hash]string{}
+	account := func(kind string, out applyOutcome) {
+		br.nTx++
+		if kind == "K" {
+			br.nContract++
+		}
+		if !out.included {
+			br.nSkipped++
+			return
+		}
+		if kind != "T" && kind != "K" {
+			br.nStaking++
+		}
+		if out.receipt.Status == types.ReceiptStatusFailed {
+			br.nFailed++
+		}
+	}
 	for _, l := range bl[1:] {
 		o, err := parseOp(l)
 		if err != nil {
@@ -349,6 +424,8 @@ func (s *session) runBlock(bl []string) error {
 		switch o.kind {
 		case "FS":
 			forged = true
+			continue
+		case "WK":
 			continue
 		case "EV":
 			vk := o.user()
@@ -373,28 +450,46 @@ func (s *session) runBlock(bl []string) error {
 			br.nEv++
 			continue
 		}
+		if workerMode {
+			tx, err := w.makeTx(o, func(a common.Address) uint64 { n := work.State.GetNonce(a) + given[a]; given[a]++; return n })
+			if err != nil {
+				return err
+			}
+			from, _ := types.Sender(w.kit.Signer, tx)
+			groups[from] = append(groups[from], tx)
+			kindOf[tx.Hash()] = o.kind
+			br.candGas += tx.Gas()
+			continue
+		}
 		tx, err := w.makeTx(o, work.State.GetNonce)
 		if err != nil {
 			return err
 		}
-		out := work.Apply(tx)
-		br.nTx++
-		if strings.HasPrefix(out.Err, "panic:") {
+		out := work.apply(tx)
+		if out.panicked != "" {
 			// a panic inside ApplyTransaction is the same for builder and importer only if the importer gets the tx at all;
 			// the builder (miner/worker.go) would die here. Reported as a crash (not C06's claim unless it is order dependent).
-			rr.stopErr = fmt.Sprintf("block %d: ApplyTransaction panicked on %q: %s", br.num, l, out.Err)
+			rr.stopErr = fmt.Sprintf("block %d: ApplyTransaction panicked on %q: %s", br.num, l, out.panicked)
 			rr.blocks = append(rr.blocks, br)
 			return nil
 		}
-		if !out.Included {
-			br.nSkipped++
-			continue
+		account(o.kind, out)
+	}
+	if workerMode {
+		br.worker = true
+		br.gasLimit = work.Header.GasLimit
+		for a := range groups {
+			sort.Stable(types.TxByNonce(groups[a])) // the pool hands over nonce-sorted lists
 		}
-		if o.kind != "T" && o.kind != "K" {
-			br.nStaking++
-		}
-		if out.Receipt.Status == types.ReceiptStatusFailed {
-			br.nFailed++
+		br.workerStats = work.candidateLoop(groups, func(tx *types.Transaction, o applyOutcome) {
+			if o.panicked == "" {
+				account(kindOf[tx.Hash()], o)
+			}
+		})
+		if br.workerStats["panic"] > 0 {
+			rr.stopErr = fmt.Sprintf("block %d: ApplyTransaction panicked in the worker loop", br.num)
+			rr.blocks = append(rr.blocks, br)
+			return nil
 		}
 	}
 	var slashData []byte
@@ -419,7 +514,7 @@ func (s *session) runBlock(bl []string) error {
 			br.sameKind = true
 		}
 	}
-	built, err := work.Finish(slashData)
+	built, err := work.finish(slashData)
 	if err != nil {
 		return err
 	}
@@ -469,6 +564,9 @@ func (s *session) runBlock(bl []string) error {
 			node = w.kit.A
 		}
 		cold := i%4 >= 2
+		if i > 0 {
+			dirtyPool(w, node, blk, i) // a different interpreter history before every repetition
+		}
 		var r execResult
 		if i%3 == 1 {
 			r = reexecMirror(node, blk, cold)
